@@ -17,6 +17,7 @@
    [live g]   = identifiers allocated and not yet freed (offsets in the map + min)
    [step g o] = one API call with loop fuel (number of live ids) + 1 <= valueRange + 1
                 (C20_no_hang: any fuel >= valueRange + 1 gives the same result). *)
+From NV Require C19.Globals.
 From NV Require Import Lib.Base C20.Model C20.Spec C20.Proofs C20.Proofs_inrange.
 Open Scope Z_scope.
 
@@ -150,6 +151,14 @@ Example C20_example_history :
          RNone; RNone; RId 7; RFail; RId 5]).
 Proof. exact example_history. Qed.
 
+(* the functions this property is about are functions of their arguments: the files it is anchored in declare
+   no package-level variable other than the pinned read-only tables (or a never-touched one of plain type) and
+   none of their functions writes, slices, takes the address of, passes on or calls a method of a
+   package-level variable (logger entries excepted) -- evaluated on the current source (C19/Globals.v) *)
+Theorem C20_anchor_files_keep_no_state :
+  Globals.hidden_state_free Globals.anchors_C20 = true.
+Proof. vm_compute. reflexivity. Qed.
+
 Print Assumptions C20_inv_init.
 Print Assumptions C20_inv_step.
 Print Assumptions C20_in_bounds.
@@ -163,3 +172,4 @@ Print Assumptions C20_histories_from.
 Print Assumptions C20_inrange_meaning.
 Print Assumptions C20_wrap64.
 Print Assumptions C20_range_hypothesis_needed.
+Print Assumptions C20_anchor_files_keep_no_state.
